@@ -11,9 +11,9 @@ run_one() {
   echo "$id clean=$(echo "$r" | grep -o 'demo exit on clean: [0-9]*' | grep -o '[0-9]*$') mut=$(echo "$r" | grep -o 'demo exit on mutant: [0-9]*' | grep -o '[0-9]*$') check=$(echo "$r" | grep -o 'check exit: [0-9]*' | grep -o '[0-9]*$') viol=$(echo "$r" | grep -c '^VIOLATION') noinput=$(echo "$r" | grep -c 'no-failing-input-found') $(echo "$r" | grep -m1 -o 'patch does not apply')"
 }
 export -f run_one
-# one lane per GROUP of properties that share generated Gen/*.v files (C01+C08: MasksGen; C04+C12: PitCostGen;
+# one lane per GROUP of properties that share generated Gen/*.v files (C01+C08: MasksGen; C04+C12: PitCostGen; C12 also reads MpsCostGen (C05) and SnCostGen (C06);
 # C02+C03+C06+C10+C13: SamplerGen / QuantGen / SnCostGen), so that two runs never rewrite a generated file the other one is building
-groups="C01,C08 C04,C12 C02,C03,C06,C10,C13 C05 C07 C09 C11 C14 C15 C16 C17 C18 C19 C20"
+groups="C01,C08 C02,C03,C04,C05,C06,C10,C12,C13 C07 C09 C11 C14 C15 C16 C17 C18 C19 C20"
 want=" $(echo "$ids" | tr '\n' ' ') "
 for g in $groups; do echo "$g"; done > build/regress/groups.txt
 cat build/regress/groups.txt | xargs -P $lanes -I{} bash -c 'for p in $(echo {} | tr "," " "); do for id in $(ls /verif/seeded | grep "^$p-"); do case "'"$want"'" in *" $id "*) run_one $id;; esac; done; done' >> build/regress/summary.txt
